@@ -858,18 +858,18 @@ theorem weightsAt_scaleModel (k : α) (dens : Bool) (m : Model α) (env : Env α
   simp only [List.mapM_map, Function.comp_def, realised_scaleFlow_eval]
   exact mapM_option_map_zip (fun f => (realised f).eval env) (fun f x => x * weightFactor k dens f.kind) m.flows
 
-theorem weightsAt_state_indep (m : Model α) (hm : stateFree m = true) (p : List (String × α)) (t : α)
+theorem weightsAt_state_indep (m : Model α) (hm : stateFreeI m = true) (p : List (String × α)) (t : α)
     (x x' : List α) : weightsAt m ⟨p, t, x⟩ = weightsAt m ⟨p, t, x'⟩ := by
   unfold weightsAt
   apply mapM_option_congr
   intro f hf
-  simp only [stateFree, Bool.and_eq_true, List.all_eq_true, Bool.not_eq_true'] at hm
+  simp only [stateFreeI, Bool.and_eq_true, List.all_eq_true, Bool.not_eq_true'] at hm
   exact eval_state_indep p t x x' _ (hm.1 f hf)
 
-theorem mixingMatrix_state_indep (m : Model α) (hm : stateFree m = true) (p : List (String × α)) (t : α)
+theorem mixingMatrix_state_indep (m : Model α) (hm : stateFreeI m = true) (p : List (String × α)) (t : α)
     (x x' : List α) : mixingMatrix m ⟨p, t, x⟩ = mixingMatrix m ⟨p, t, x'⟩ := by
   unfold mixingMatrix
-  simp only [stateFree, Bool.and_eq_true, List.all_eq_true, Bool.not_eq_true'] at hm
+  simp only [stateFreeI, Bool.and_eq_true, List.all_eq_true, Bool.not_eq_true'] at hm
   have : ∀ mat ∈ m.mixingMats, evalMatrix ⟨p, t, x⟩ mat = evalMatrix ⟨p, t, x'⟩ mat := by
     intro mat hmat
     unfold evalMatrix
@@ -915,7 +915,7 @@ theorem ratesOf_scale {m : Model α} {b : Backend} (hb : BackendFor m b) (k : α
 `b` its index tables, `k > 0`; `dens` says whether transmission is density dependent.  Then the
 right-hand side of the scaled model at `k·x` is `k` times the right-hand side of `m` at `x` (and is
 defined exactly when the latter is). -/
-theorem rhs_scale {m : Model α} {b : Backend} (hb : BackendFor m b) (hm : stateFree m = true) (k : α) (hk : 0 < k)
+theorem rhs_scale {m : Model α} {b : Backend} (hb : BackendFor m b) (hm : stateFreeI m = true) (k : α) (hk : 0 < k)
     (dens : Bool) (hd : dens = (b.procType == some false)) (p : List (String × α)) (x : List α) (t : α) :
     rhs (scaleModel k dens m) b p (vscale k x) t = (rhs m b p x t).map (vscale k) := by
   rw [rhs_eq, rhs_eq, cleanV_scale k hk, weightsAt_scaleModel,
@@ -937,7 +937,7 @@ theorem rhs_scale {m : Model α} {b : Backend} (hb : BackendFor m b) (hm : state
         simp only [Option.map_some, Option.bind_some]
         rw [ratesOf_scale hb k hk.ne' dens hd w (cleanV x) hwl mix ci]
 
-theorem field_scale {m : Model α} {b : Backend} (hb : BackendFor m b) (hm : stateFree m = true) (k : α) (hk : 0 < k)
+theorem field_scale {m : Model α} {b : Backend} (hb : BackendFor m b) (hm : stateFreeI m = true) (k : α) (hk : 0 < k)
     (dens : Bool) (hd : dens = (b.procType == some false)) (p : List (String × α)) (x : List α) (t : α) :
     field (scaleModel k dens m) b p (vscale k x) t = vscale k (field m b p x t) := by
   unfold field
